@@ -29,7 +29,7 @@ ALIGN_TOL = 1e-6
 
 DTS = ["0.1", "0.05", "0.2", "0.3", "0.25", "0.01", "0.7", "third"]
 STARTS = ["0", "0.1", "-0.3", "1.7"]
-FORMS = ["literal", "floatexpr", "off0.4", "off0.6", "off0.999"]
+FORMS = ["literal", "floatexpr", "off0.4", "off0.6", "off0.999", "mixed"]
 
 
 def dtval(s):
@@ -39,6 +39,9 @@ def dtval(s):
 def end_time(dts, starts, form, m):
     """Returns (end_time float, expected n)."""
     dt, st = dtval(dts), float(starts)
+    if form == "mixed":
+        # targets whose position inside the grid cell changes from call to call: off-grid for even m, grid point for odd m
+        return end_time(dts, starts, "off0.6" if m % 2 == 0 else "floatexpr", m)
     if form == "literal":
         if dts == "third":
             return None
@@ -499,15 +502,24 @@ def replay(rp):
         obs = {"end_time": e, "expected_steps": n_exp}
         vio = []
         kind = rp.get("kind", "Tempo")
+        def earlier_targets(obj):
+            # form 'mixed' is a property of the call history: replay the earlier targets on the same object
+            if form == "mixed":
+                for mm in range(m):
+                    r_ = end_time(dts, starts, form, mm)
+                    if r_ is not None:
+                        obj.compute(r_[0], progress_type="silent")
         if kind == "Tempo":
             t = oq.Tempo(S["system"], S["bath"], params, M.RHO_PLUS, st)
             t._backend_instance = StubBackend(2)
+            earlier_targets(t)
             d = t.compute(e, progress_type="silent")
             obs["steps"] = len(d.times) - 1
             _check_series("Tempo", (dts, starts, form), list(d.times), range(len(d.times)), n_exp, st, dt, vio, m)
         elif kind == "MeanFieldTempo":
             t = oq.MeanFieldTempo(S["mfs"], [S["bath"]], params, [M.RHO_PLUS], 1.0, start_time=st)
             t._backend_instance = StubMFBackend(2)
+            earlier_targets(t)
             d = t.compute(e, progress_type="silent")
             obs["steps"] = len(d.times) - 1
             _check_series("MeanFieldTempo", (dts, starts, form), list(d.times), range(len(d.times)), n_exp, st, dt, vio, m)
